@@ -110,6 +110,8 @@ class Monitor:
         self.longer_peer = False     # some node became leader while a peer held a longer log
         self.n_deliver = 0
         self.prev_conflicts = 0
+        self.led = {}              # node -> terms it led
+        self.reelected = 0         # a node became leader again after another node had led in between
         self.matching_broken = False   # two leaders in one term / log matching violated earlier in this history
         self.stale_acks = 0        # success acks of an earlier term delivered to a leader (label / target only)
         self.n_crashed_drop = 0
@@ -286,6 +288,10 @@ class Monitor:
             ls = self.leaders.setdefault(new.term, [])
             if name not in ls:
                 ls.append(name)
+                mine = self.led.setdefault(name, [])
+                if mine and any(t > mine[-1] and who != [name] for t, who in self.leaders.items() if t < new.term):
+                    self.reelected += 1          # led before, somebody else led in between (label / target only)
+                mine.append(new.term)
                 if any(len(o.ents) > len(new.ents) for other, o in self.prev.items() if other != name):
                     self.longer_peer = True
                 self.terms_with_leader.add(new.term)
@@ -591,7 +597,9 @@ def ex_safety(obl):
         if mon.stale_acks:
             r.labels.append("stale-ack-delivered-to-leader")
         r.target = float(pairs + 2 * mon.leader_changes_after_commit + min(len(mon.committed), 5)
-                         + 3 * min(mon.stale_acks, 4) + 3 * min(mon.prev_conflicts, 4))
+                         + 3 * min(mon.stale_acks, 4) + 3 * min(mon.prev_conflicts, 4) + 4 * min(mon.reelected, 3))
+        if mon.reelected:
+            r.labels.append("former-leader-re-elected-after-another-leader")
         if mon.prev_conflicts:
             r.labels.append("consistency-check-met-conflicting-entry")
         r.observed = {"events": probe.n, "leaders": {str(k): v for k, v in sorted(mon.leaders.items())},
@@ -620,11 +628,18 @@ def make_regain(seed, crash, k, t_p1, heal, t_crash, t_p2, t_d, slow, fast, extr
     crashes; if n0 regains the leadership it is cut off with a single follower k while the late answers arrive."""
     # back > 0: the crashed leader comes back `back` ms after the second partition started, so the other side regains a
     # quorum and can commit something else at the contested index
+    # slow == 0 ("kept progress" variant): n1 answers promptly, so n0 learns in term 1 that n1 stores its two entries
+    # (nothing is committed: 2 of 5); n1 is then down from the crash of the second leader until `back`, so that after its
+    # re-election n0 hears nothing new from n1 and replicates to the single follower k only
+    down = (t_p2 + back - t_crash) if back else 0
+    crashes = [{"node": crash, "t": t_crash, "dur": down, "rearm": True}]
+    if not slow:
+        crashes.append({"node": 1, "t": t_crash, "dur": down, "rearm": True})
     return {"n": 5, "hb": 40, "eto": [150, 150], "T": t_d + (2700 if back else 1900), "timeouts": [0, 500, 300, 900, 900],
             "net": {"delays": [fast], "loss": [], "seed": seed,
                     "parts": [{"t": t_p1, "dur": heal - t_p1, "mask": 3}, {"t": t_p2, "dur": 3500, "mask": 1 | (1 << k)}],
-                    "crashes": [{"node": crash, "t": t_crash, "dur": (t_p2 + back - t_crash) if back else 0, "rearm": True}],
-                    "slow": [{"src": 1, "dst": 0, "t": 150, "dur": 500, "delay": slow}]},
+                    "crashes": crashes,
+                    "slow": [{"src": 1, "dst": 0, "t": 150, "dur": 500, "delay": slow}] if slow else []},
             "submits": [{"t": 200, "node": 0, "leader": False}, {"t": 201, "node": 0, "leader": False},
                         {"t": 600, "node": 0, "leader": True}, {"t": t_d, "node": 0, "leader": True}] + extra}
 
@@ -641,7 +656,7 @@ def regain_strategy(tier):
 def _regain_main():
     return st.builds(make_regain, seed=st.integers(0, 2 ** 16), crash=st.sampled_from([2, 3, 4]), k=st.sampled_from([2, 3, 4]),
                      t_p1=st.integers(204, 232), heal=st.integers(760, 860), t_crash=st.integers(920, 1000),
-                     t_p2=st.integers(1340, 1395), t_d=st.integers(1396, 1440), slow=st.sampled_from([1500, 1700, 2000]),
+                     t_p2=st.integers(1340, 1395), t_d=st.integers(1396, 1440), slow=st.sampled_from([0, 0, 1500, 1700, 2000]),
                      fast=st.sampled_from([1, 2, 3, 5]),
                      extra=st.lists(st.fixed_dictionaries({"t": st.integers(1500, 4000), "node": st.integers(0, 4),
                                                            "leader": st.just(True)}), max_size=2),
@@ -792,12 +807,14 @@ RULE_SAFETY = (
 
 OBLIGATIONS = [
     Obligation("safety", safety_strategy(True), ex_safety("safety"), {"quick": 2400, "thorough": 60000}, RULE_SAFETY),
-    Obligation("regain", regain_strategy, ex_safety("safety"), {"quick": 320, "thorough": 8000},
-               "DIRECTED family (a jittered hand-designed template, not free exploration; same executor, oracle and signature namespace "
+    Obligation("regain", regain_strategy, ex_safety("safety"), {"quick": 480, "thorough": 8000},
+               "DIRECTED family (jittered hand-designed templates, not free exploration; same executor, oracle and signature namespace "
                "as `safety`): 5 "
                "nodes, fast network; leader n0 accepts two commands, is partitioned together with n1 whose answers to n0 take "
                "1.5-2 s; the majority side elects a leader, commits another command, the partition heals (n0's log is overwritten), "
                "that leader crashes (and may come back later); a second partition leaves whoever leads with one follower while the late answers of n1 arrive. "
+               "In the 'kept progress' variant of this template n1 answers promptly (n0 learns in term 1 that n1 stores its entries, 2 of 5, "
+               "nothing committed) and is down from the second leader's crash on, so the re-elected n0 hears nothing new from it. "
                "A third of the cases use a second template: the cut-off leader keeps appending while the majority side goes through "
                "two leaderships before the partition heals, so the consistency check of AppendEntries meets an entry of another term. "
                "Jitter: PRNG seed of the election timeouts, crashed node, partition/crash/submit times, delays. Reaches the state "
